@@ -555,10 +555,22 @@ fn rt() -> tokio::runtime::Runtime {
     tokio::runtime::Builder::new_current_thread().enable_all().start_paused(true).build().expect("runtime")
 }
 
-/// A node as the server builds it (16 shard actors), gossip disabled. Must be called inside the runtime.
+/// A node as the server builds it (16 shard actors). Must be called inside the runtime. The replication configuration rotates
+/// over what a deployment can be: replication off, a full-replication cluster member, a member of a partitioned cluster
+/// (selective gossip, RF 1 or 2 of 4 nodes - it is "responsible" for a part of the keys only). No network is ever started here;
+/// what a node accepts, persists, recovers and serves must not depend on which of these it is.
 fn node(rid: u64, causal: bool) -> ReplicatedShardedState {
+    static KIND: std::sync::atomic::AtomicU64 = std::sync::atomic::AtomicU64::new(0);
     let consistency_level = if causal { ConsistencyLevel::Causal } else { ConsistencyLevel::Eventual };
-    ReplicatedShardedState::new(ReplicationConfig { enabled: false, replica_id: rid, consistency_level, ..ReplicationConfig::default() })
+    let peers = |n: usize| (0..n).map(|i| format!("10.255.0.{}:7{:03}", i + 2, i)).collect::<Vec<_>>();
+    let k = KIND.fetch_add(1, std::sync::atomic::Ordering::Relaxed);
+    let mut cfg = match k % 4 {
+        0 | 1 => ReplicationConfig { enabled: false, replica_id: rid, ..ReplicationConfig::default() },
+        2 => ReplicationConfig::new_cluster(rid, peers(2)),
+        _ => ReplicationConfig::new_partitioned_cluster(rid, peers(3), 1 + (k / 4 % 2) as usize),
+    };
+    cfg.consistency_level = consistency_level;
+    ReplicatedShardedState::new(cfg)
 }
 
 fn sds(s: &str) -> SDS {
